@@ -163,6 +163,19 @@ def cases(tier):
           con("Xor", "c", constraint_1={"$new": con("TaskStartAt", "n1", task=R("a"), value=0)}, constraint_2=E(["==", ["start", "o"], 1])),
           con("Implies", "c", condition=E(["==", ["start", "a"], 0]), list_of_constraints=[{"$new": con("TaskStartAt", "n1", task=R("o"), value=1)}]),
           con("IfThenElse", "c", condition=True, then_list_of_constraints=[E(["==", ["start", "a"], 0])], else_list_of_constraints=[E(["==", ["start", "a"], 1])])]
+    # every documented kind / mode literal of every class
+    for k in ("exact", "min", "max"):
+        ok.append(con("WorkLoad", "c", resource=R("w"), kind=k, dict_time_intervals_and_bound={"$tupkeys": [[[0, 2], 1], [[2, 4], 1]]}))
+        ok.append(con("ResourceTasksDistance", "c", resource=R("w"), distance=1, mode=k))
+        ok.append(con("ResourceTasksDistance", "c", resource=R("w"), distance=0, mode=k, list_of_time_intervals=[(0, 2), (2, 4)]))
+        ok.append(con("ScheduleNTasksInTimeIntervals", "c", list_of_tasks=[R("a"), R("o")], nb_tasks_to_schedule=1, list_of_time_intervals=[(0, 2), (1, 3)], kind=k))
+        ok.append(con("ForceScheduleNOptionalTasks", "c", list_of_optional_tasks=[R("o")], nb_tasks_to_schedule=1, kind=k))
+    for k in ("lax", "strict", "tight"):
+        ok.append(con("TaskPrecedence", "c", task_before=R("a"), task_after=R("o"), kind=k, offset=1))
+        ok.append(con("OrderedTaskGroup", "c", list_of_tasks=[R("a"), R("o")], kind=k, time_interval=(0, 4)))
+    for k in ("lax", "strict"):
+        ok.append(con("TaskStartAfter", "c", task=R("o"), value=0, kind=k))
+        ok.append(con("TaskEndBefore", "c", task=R("o"), value=4, kind=k))
     for c in ok:
         add("well-formed:" + c["cls"], c, A)
     inds = [new("IndicatorResourceUtilization", "i", resource=R("w")), new("IndicatorNumberTasksAssigned", "i", resource=R("w")), new("IndicatorResourceIdle", "i", resource=R("w")),
